@@ -505,6 +505,7 @@ pub fn main(a: &Args) {
             run_grammar(&g, &format!("{}+layout", name), &t, &wd, &mut rep, maxlen, false);
         }
     }
+    let mut rng_td = a.rng(4243);
     let mut i = 0;
     while i < n && rep.elapsed() < a.max_s {
         let o = match i % 6 {
@@ -512,6 +513,14 @@ pub fn main(a: &Args) {
             5 => BnfOpts { max_nt: 6, max_t: 5, max_alts: 4, max_len: 4, p_empty: 0.2 },
             _ => BnfOpts::default(),
         };
+        if i % 10 == 6 {
+            // an extra grammar of the top-down family (own PRNG stream)
+            let g2 = gen_topdown(&mut rng_td);
+            if g2.reduced() {
+                rep.count("topdown_family_grammars", 1);
+                run_grammar(&g2, "topdown", &g2.text(), &wd, &mut rep, maxlen, true);
+            }
+        }
         let g = if i % 25 == 7 {
             rep.count("big_family_grammars", 1);
             gen_big(&mut rng)
